@@ -992,6 +992,9 @@ class Fxp():
                 new_val = np.array(list(map(int, new_val.flatten())), dtype=val_dtype).reshape(new_val.shape)
             
             if index is not None:
+                if val_dtype == object and new_val.ndim > 0 and new_val.ndim > np.ndim(self.val[index]):
+                    # (an object array accepts anything as an element: a sequence would be stored as a nested array)
+                    raise ValueError('setting an array element with a sequence.')
                 # (a 0-d object array assigned to one element of an object array would be stored as an array object)
                 self.val[index] = new_val.item() if (val_dtype == object and new_val.ndim == 0) else new_val
             else:
